@@ -557,7 +557,7 @@ func (env *ExprEnv) ident(name string) TV {
 func (v *FV) globalRef(gv *types.Var) Term {
 	name := "glob_" + mangle(shortPkg(gv.Pkg().Path())+"_"+gv.Name())
 	v.pre("glob "+name, fmt.Sprintf("(declare-const %s Int)", name))
-	v.pre("globpos "+name, fmt.Sprintf("(assert (> %s 0))", name))
+	v.pre("globpos "+name, fmt.Sprintf("(assert (and (> %s 0) (<= %s N0!)))", name, name))
 	return name
 }
 
